@@ -68,7 +68,7 @@ fn strat(ctx: &ShardCtx, small_cache: bool, nested: u32) -> BoxedStrategy<CrashC
     let stride = ctx.tier.pick(3u32, 1u32);
     let mut o = crash_opts(ctx.limit("steps", ctx.tier.pick(16, 30)) as usize);
     o.flush = !ctx.excluded("admin.flush");
-    (gen_cfg(small_cache), gen_history(&o)).prop_map(move |(cfg, steps)| CrashCase { cfg, steps, excluded: excluded.clone(), stride, nested }).boxed()
+    (gen_cfg(small_cache), gen_history(&o)).prop_map(move |(cfg, steps)| CrashCase { cfg, steps, excluded: excluded.clone(), stride, nested, flush_with_open_writer: true }).boxed()
 }
 
 /// Long-log shape: one small table and 120-230 single-row autocommit statements without a checkpoint, so that
@@ -86,7 +86,98 @@ fn long_log(ctx: &ShardCtx, nested: u32) -> BoxedStrategy<CrashCase> {
                     steps.push(Step::Auto(AStmt::Insert { t: 0, rows: vec![vec![AVal::Pool(v), AVal::Pool(v / 2), AVal::Pool(v), AVal::Pool(v), AVal::Pool(v)]], partial: false }));
                 }
             }
-            CrashCase { cfg: Cfg::default(), steps, excluded: excluded.clone(), stride, nested }
+            CrashCase { cfg: Cfg::default(), steps, excluded: excluded.clone(), stride, nested, flush_with_open_writer: true }
+        })
+        .boxed()
+}
+
+/// Session-across-checkpoint shape: a session writes, somebody checkpoints (its Begin record leaves the log),
+/// the session writes more and commits or rolls back, more autocommit work follows.
+fn across_checkpoint(ctx: &ShardCtx, nested: u32) -> BoxedStrategy<CrashCase> {
+    let excluded: Vec<String> = ctx.excludes.keys().cloned().collect();
+    let stride = ctx.tier.pick(3u32, 1u32);
+    (prop::collection::vec(0u8..12, 1..4), prop::collection::vec(0u8..12, 1..3), prop::collection::vec(0u8..12, 1..4), prop::bool::weighted(0.75), prop::bool::weighted(0.4), prop::bool::weighted(0.3), prop::collection::vec(0u8..12, 0..4))
+        .prop_map(move |(pre, in1, in2, commit, other_commit_between, second_flush, post)| {
+            let row = |v: u8| vec![AVal::Pool(v), AVal::Pool(v / 2), AVal::Pool(v), AVal::Pool(v), AVal::Pool(v)];
+            let ins = |v: u8| AStmt::Insert { t: 0, rows: vec![row(v)], partial: false };
+            let mut steps = vec![Step::Auto(AStmt::Create { name: 0, cols: vec![ACol { ty: 0, not_null: false, default: None }, ACol { ty: 3, not_null: false, default: None }], pk: None, uniq: None })];
+            for v in pre {
+                steps.push(Step::Auto(ins(v)));
+            }
+            steps.push(Step::Begin(0));
+            for v in in1 {
+                steps.push(Step::Exec(0, ins(v)));
+            }
+            if other_commit_between {
+                steps.push(Step::Auto(ins(11)));
+            }
+            steps.push(Step::Flush);
+            for v in in2 {
+                steps.push(Step::Exec(0, ins(v)));
+            }
+            if second_flush {
+                steps.push(Step::Flush);
+            }
+            steps.push(if commit { Step::Commit(0) } else { Step::Rollback(0) });
+            for v in post {
+                steps.push(Step::Auto(ins(v)));
+            }
+            CrashCase { cfg: Cfg::default(), steps, excluded: excluded.clone(), stride, nested, flush_with_open_writer: true }
+        })
+        .boxed()
+}
+
+/// Failed-statement-then-checkpoint shape: a statement that fails after it wrote a row, at a varying transaction
+/// id, then a checkpoint, then a little more work.
+fn failed_then_checkpoint(ctx: &ShardCtx, nested: u32) -> BoxedStrategy<CrashCase> {
+    let excluded: Vec<String> = ctx.excludes.keys().cloned().collect();
+    // transaction ids: small (every residue mod 8), just beyond 1024, just beyond 8192 (bitmap sizes)
+    // (beyond 8192: open finding F-C09-aborts-beyond-8192-forgotten)
+    let burn = if ctx.excluded("ids.noncommit_beyond_8192") { prop_oneof![12 => 0u16..9, 3 => 1015u16..1040].boxed() } else { prop_oneof![12 => 0u16..9, 3 => 1015u16..1040, 1 => 8185u16..8200].boxed() };
+    (prop::collection::vec(0u8..12, 0..6), burn, 0u8..12, any::<bool>(), prop::collection::vec(0u8..12, 0..3))
+        .prop_map(move |(pre, burn, v, in_batch, post)| {
+            let row = |v: u8| vec![AVal::Pool(v), AVal::Pool(v / 2), AVal::Pool(v), AVal::Pool(v), AVal::Pool(v)];
+            let ins = |v: u8| AStmt::Insert { t: 0, rows: vec![row(v)], partial: false };
+            let mut steps = vec![Step::Auto(AStmt::Create { name: 0, cols: vec![ACol { ty: 0, not_null: true, default: None }, ACol { ty: 3, not_null: false, default: None }], pk: None, uniq: None })];
+            for p in pre {
+                steps.push(Step::Auto(ins(p)));
+            }
+            if burn > 0 {
+                steps.push(Step::Burn(burn));
+            }
+            let failing = AStmt::Insert { t: 0, rows: vec![row(v), vec![AVal::Null, AVal::Null, AVal::Null, AVal::Null, AVal::Null]], partial: false };
+            steps.push(if in_batch { Step::Batch(vec![ins(v), failing]) } else { Step::Auto(failing) });
+            steps.push(Step::Flush);
+            for p in post {
+                steps.push(Step::Auto(ins(p)));
+            }
+            // (every read-only statement of a burn forces the log: thousands of crash points that differ in nothing)
+            CrashCase { cfg: Cfg::default(), steps, excluded: excluded.clone(), stride: if burn > 100 { 499 } else { 1 }, nested, flush_with_open_writer: true }
+        })
+        .boxed()
+}
+
+/// Big-transaction shape: one session whose log records span several 40 KiB log blocks, committed; every crash
+/// point of the commit is taken.
+fn big_txn(ctx: &ShardCtx, nested: u32) -> BoxedStrategy<CrashCase> {
+    let excluded: Vec<String> = ctx.excludes.keys().cloned().collect();
+    (prop::collection::vec(0u8..12, 0..3), 150usize..420, any::<bool>(), prop::collection::vec(0u8..12, 0..2))
+        .prop_map(move |(pre, n, commit, post)| {
+            let row = |v: u8| vec![AVal::Pool(v), AVal::Pool(v / 2), AVal::Pool(v), AVal::Pool(v), AVal::Pool(v)];
+            let ins = |v: u8| AStmt::Insert { t: 0, rows: vec![row(v)], partial: false };
+            let mut steps = vec![Step::Auto(AStmt::Create { name: 0, cols: vec![ACol { ty: 1, not_null: false, default: None }, ACol { ty: 3, not_null: false, default: None }], pk: None, uniq: None })];
+            for p in pre {
+                steps.push(Step::Auto(ins(p)));
+            }
+            steps.push(Step::Begin(0));
+            for i in 0..n {
+                steps.push(Step::Exec(0, ins((i % 12) as u8)));
+            }
+            steps.push(if commit { Step::Commit(0) } else { Step::Rollback(0) });
+            for p in post {
+                steps.push(Step::Auto(ins(p)));
+            }
+            CrashCase { cfg: Cfg::default(), steps, excluded: excluded.clone(), stride: 1, nested, flush_with_open_writer: true }
         })
         .boxed()
 }
@@ -101,6 +192,15 @@ fn shard(ctx: &mut ShardCtx, prefix: &'static str, small_cache: bool, nested: u3
     let nl = ctx.share(ctx.tier.pick(32, 400));
     let s2 = long_log(ctx, nested.min(1));
     ctx.search("crash_history", s2, nl, &move |c: &CrashCase| for_property(run_crash(c), prefix));
+    let nf = ctx.share(ctx.tier.pick(320, 6_000));
+    let s4 = failed_then_checkpoint(ctx, nested.min(1));
+    ctx.search("crash_history", s4, nf, &move |c: &CrashCase| for_property(run_crash(c), prefix));
+    let nb = ctx.share(ctx.tier.pick(32, 600));
+    let s5 = big_txn(ctx, 0);
+    ctx.search("crash_history", s5, nb, &move |c: &CrashCase| for_property(run_crash(c), prefix));
+    let nc = ctx.share(ctx.tier.pick(320, 6_000));
+    let s3 = across_checkpoint(ctx, nested.min(1));
+    ctx.search("crash_history", s3, nc, &move |c: &CrashCase| for_property(run_crash(c), prefix));
 }
 
 fn replay_with(kind: &str, case: &Value, prefix: &str) -> CaseOut {
